@@ -38,7 +38,8 @@ class Proto(Scenario):
     margin = Fraction(1, 10**9)
     concrete_tol = 1e-9
 
-    def __init__(self, kind, durations, mode, npts=0, relative=False, continued=False, swap=False, per_step=1):
+    def __init__(self, kind, durations, mode, npts=0, relative=False, continued=False, swap=False, per_step=1, edit_before=False):
+        self.edit_before = edit_before  # a manual parameter change between the earlier simulation and the protocol
         self.kind = kind
         self.durations = tuple(durations)
         self.mode = mode  # "P" simulate_protocol | "TC" simulate_protocol_time_course
@@ -49,7 +50,7 @@ class Proto(Scenario):
         self.per_step = per_step
         d = "_".join(str(x) for x in durations)
         self.key = (f"C14/{kind}/{mode}/d{d}/n{npts}{'r' if relative else 'a'}/"
-                    f"{'cont' if continued else 'fresh'}{'/swap' if swap else ''}{f'/s{per_step}' if mode == 'P' else ''}")
+                    f"{'cont' if continued else 'fresh'}{'/swap' if swap else ''}{f'/s{per_step}' if mode == 'P' else ''}{'/edit' if edit_before else ''}")
 
     def run(self, ctx):
         import mxlpy.integrators.int_scipy as isc
@@ -89,6 +90,10 @@ class Proto(Scenario):
             reached = t_prev
             started = True
             segp.append(p)
+            if self.edit_before:
+                with ctx.impl("update_parameter before the protocol"):
+                    for pn_ in pnames:
+                        sim.update_parameter(pn_, ctx.real(f"edit_{pn_}"))
         # the protocol
         steps = []
         for i, d in enumerate(self.durations):
@@ -190,4 +195,7 @@ def scenarios(tier, seed):
                 for rel in (False, True):
                     scs.append(Proto("decay", lay, "TC", npts=npts, relative=rel, continued=cont))
             scs.append(Proto("chain", lay, "TC", npts=1, relative=cont, continued=cont, swap=True))
+        if len(lay) <= 2:
+            scs.append(Proto("decay", lay, "P", continued=True, per_step=1, edit_before=True))
+            scs.append(Proto("decay", lay, "TC", npts=1, relative=False, continued=True, edit_before=True))
     return scs
